@@ -166,7 +166,7 @@ def check_model(group: ModelGroupType) -> None:
                         msg = _("{0!r} and {1!r} overlap and are in the same {2!r} group")
                         model = current_path[-1].model  # type: ignore[union-attr]
                         raise XMLSchemaModelError(group, msg.format(pe, e, model))
-                elif pe.is_univocal():
+                elif pe.is_univocal() and current_path[-1].max_occurs == 1:
                     continue
 
             if distinguishable_paths(previous_path + [pe], current_path + [e]):
